@@ -21,7 +21,7 @@ Trace == ndJsonDeserialize(TraceFile)
 VARIABLES l, pre, g, viol, drift
 tvars == <<l, pre, g, viol, drift>>
 
-KnownKinds == {"commit", "eval", "acc", "apol", "result", "checkin"}
+KnownKinds == {"commit", "eval", "acc", "apol", "result", "checkin", "old"}
 
 (* the op can be evaluated by the spec on the observed pre-state *)
 Evaluable(s, o) ==
@@ -52,7 +52,7 @@ TNext ==
     /\ LET line == Trace[l] IN
        CASE line.k = "new" ->
               /\ pre' = line.st /\ g' = GhostInit
-              /\ drift' = drift \cup (IF line.st = InitState THEN {} ELSE {l})
+              /\ drift' = drift \cup (IF [line.st EXCEPT !.ov = FALSE] = InitState THEN {} ELSE {l})
               /\ UNCHANGED viol
          [] line.k = "op" ->
               /\ pre' = line.st
